@@ -5,6 +5,8 @@ R10.1 disallowed tags become Characters tokens (so the serializer's text escapin
 R10.2 no allow-listed element (local name, in any namespace: the serializer decides raw text by bare name) is one whose
       text the serializer writes raw or the parser reads as raw text / PLAINTEXT
 R10.3 in the serializer pipeline the sanitizer runs before optional-tag omission (nothing after it adds markup)
+R10.6 integration-point elements of an allowed foreign root are on the allow-list too (else their HTML children break out)
+R10.7 tag omission does not leave a foreign integration point open (</p> before </desc> etc.; shared with R13.4b)
 R10.4 the serializer's text escaping (S1, S3) and attribute quoting / escaping (Q2, Q4) hold -- what the sanitizer hands on
       as text or as an attribute value is read back as text / the same value
 """
@@ -64,6 +66,38 @@ def run(ctx):
             detail={"order": order})
     r.check("R10.3", order[-2:] == ["sanitize", "omit_optional_tags"], "nothing-after-sanitizer", f.where,
             "a filter other than tag omission runs after the sanitizer: %s" % order)
+    # R10.6: an element in which HTML content is parsed although its parent is foreign (an HTML / MathML-text integration
+    # point) must not be rejected while the foreign root is allowed: its HTML children would be left directly inside the foreign
+    # element, break out of it on re-parse, and the allow-listed foreign elements that follow (svg <title>, ...) would be read
+    # in the HTML context (RCDATA), where attribute text becomes markup
+    r.rule("R10.6", "integration-point elements of an allowed foreign root are allowed themselves", floor=6)
+    ns = ce.const("constants.py", "namespaces")
+    hip = set(ce.const("constants.py", "htmlIntegrationPointElements")) | set(ce.const("constants.py", "mathmlTextIntegrationPointElements"))
+    roots = {ns["svg"]: (ns["svg"], "svg"), ns["mathml"]: (ns["mathml"], "math")}
+    # the context change is dangerous where an allow-listed element of that namespace has the name of an element whose
+    # content the HTML parser reads as RCDATA / raw text (svg <title>): its attribute text and children become raw text
+    text_named = {n for n, v in model.items() if any(s in ("rcdata", "rawtext", "scriptData", "plaintext") for s, c in v)} | {"plaintext"}
+    exposed = {e_ns: sorted(n for (a_ns, n) in allowed if a_ns == e_ns and n in text_named) for e_ns in roots}
+    r.extra["allowed_foreign_elements_named_like_text_elements"] = {roots[k][1]: v for k, v in exposed.items()}
+    for e_ns, e_name in sorted(hip):
+        root = roots.get(e_ns)
+        if root is None or root not in allowed:
+            continue
+        if not exposed.get(e_ns):
+            r.ok("R10.6", "integration-point-allowed:%s %s" % (root[1], e_name), where,
+                 detail={"root": root[1], "element": e_name, "note": "no allow-listed element of this namespace is named like an HTML text element"})
+            continue
+        r.check("R10.6", (e_ns, e_name) in allowed, "integration-point-allowed:%s %s" % (root[1], e_name), where,
+                "<%s> is allowed but its integration point <%s> is not: the rejected tag becomes text and its HTML children stay "
+                "directly inside <%s>; re-parsed, they break out of the foreign content and following allow-listed foreign "
+                "elements such as <title> are read as HTML raw-text elements, in which attribute text is markup" % (root[1], e_name, root[1]),
+                {"root": root[1], "element": e_name}, detail={"root": root[1], "element": e_name})
+    # R10.7: tag omission after the sanitizer must not change the context either: </p> dropped before the end tag of a foreign
+    # integration point (shared with R13.4b)
+    if "omit_optional_tags" in order:
+        from . import c13_parser
+        r.rule("R10.7", "tag omission keeps foreign integration points closed (</p> before </desc>, </title>, </foreignObject>)", floor=3)
+        c13_parser.foreign_parent_cases(ctx, "R10.7", only_namespaces={roots[k][1] if roots[k][1] != "math" else "mathml" for k, v in exposed.items() if v})
     # R10.4: what the sanitizer hands on as text / attribute values is re-read as text / the same value: the serializer's
     # text escaping (S1) and attribute quoting / escaping (Q2, Q4) are preconditions of re-parse safety as well
     from . import c07, c08
@@ -84,6 +118,7 @@ def thorough(ctx):
 def mutants():
     from ..selftest import TextMutant as T
     return [
+        T("reject-svg-desc", "filters/sanitizer.py", "    (namespaces['svg'], 'desc'),\n", "", "R10.6"),
         T("text-unescaped", "serializer.py", "                    yield self.encode(escape(token[\"data\"]))", "                    yield self.encode(token[\"data\"])", "S1"),
         T("attr-amp-unescaped", "serializer.py", "                        v = v.replace(\"&\", \"&amp;\")\n", "", "Q4"),
         T("spec-class-no-gt", "serializer.py", "_quoteAttributeSpecChars = \"\".join(spaceCharacters) + \"\\\"'=<>`\"", "_quoteAttributeSpecChars = \"\".join(spaceCharacters) + \"\\\"'=<`\"", "Q2"),
